@@ -262,6 +262,32 @@ def shard(ctx):
                 ctx.violation("in-list:%s" % tclass(U[i]), "clause `%s` v%d=%s tool=%s oracle=%s" % (ctext, i, gen.jdump(U[i]), got, exp),
                               {"kind": "pair", "rules": "rule r {\n    %s\n}\n" % ctext, "data": DOC, "expected": exp})
 
+    # ---- literal (bound to a variable) on the left of `in`, a list from the document on the right: holds iff the literal equals some element
+    if ctx.mine(2):
+        lists = [(k, v) for k, v in enumerate(U) if tclass(v) == "list"]
+        scalars = [1, 2, 3, 5, "a", "1", 1.5, True]
+        cases = []
+        for s_ in scalars:
+            for k, lst in lists:
+                for neg in (False, True):
+                    r = any(deep_eq(s_, m) for m in lst)
+                    if not lst:
+                        continue            # empty right-hand side: the clause compares nothing (documented SKIP zone), not asserted
+                    exp = "PASS" if r != neg else "FAIL"
+                    ctext = "let lv = %s\n    %%lv %sin v%d" % (gen.glit(s_), "not " if neg else "", k)
+                    cases.append(("r%d" % len(cases), ctext, exp, s_, lst))
+        st, res, text = run_file(ctx, [(c[0], c[1]) for c in cases])
+        if st is None:
+            ctx.inconclusive("literal-in-list-file-error")
+        else:
+            for name, ctext, exp, s_, lst in cases:
+                ctx.res.cases += 1
+                got = st.get(name)
+                ctx.res.distinct.add(("lit-in-list", tclass(s_), len(lst), got))
+                if got != exp:
+                    ctx.violation("in-list:literal-lhs:%s" % tclass(s_), "clause `%s` literal=%s list=%s tool=%s oracle=%s" % (ctext.replace("\n    ", "; "), gen.jdump(s_), gen.jdump(lst), got, exp),
+                                  {"kind": "pair", "rules": "rule r {\n    %s\n}\n" % ctext, "data": DOC, "expected": exp})
+
     # ---- ranges: exhaustive over bracket forms x bound pairs x int / float values
     if ctx.mine(0):
         ints = [v for v in U if tclass(v) == "int"]
